@@ -5,6 +5,7 @@ a given input produces — in particular whether every long loop contains a poll
 that the correspondence run measures (poll counts, gaps, time from firing to return, context afterwards).
 -/
 import FendModel.Model.Interrupt
+import FendModel.Gen.PollSites
 
 namespace Fend.C07
 open Fend.Intr
@@ -92,5 +93,116 @@ theorem interrupted_or_same (k : Nat) (t : List Ev) :
 
 -- non-vacuity: `x = 5; <work> ; y = 7` interrupted at the second poll keeps x and never sees y
 example : run 1 [.poll, .work 10, .store "x" 5, .poll, .work 1000, .store "y" 7] 0 [] = (.interrupted, 2, [("x", 5)], 0) := by decide
+
+/-! ### Tie A: which loops answer to the interrupt
+
+`Fend.Gen.pollLoops` / `unpolledLoops` are regenerated from /repo on every run (translator/poll_sites.py): per function, the
+number of loops whose body calls `test_int`, and the number of loops that neither poll nor hand the interrupt to a callee.
+The two tables below are the reviewed state; the theorems make the build fail when a reviewed polling loop loses its poll, or
+when a function gains an unpolled loop. -/
+
+/-- functions whose long-running loops poll the interrupt, with the number of such loops -/
+def reviewedPolled : List (String × String × Nat) :=
+  [("core/src/date.rs", "add", 1),
+   ("core/src/date.rs", "diff_months", 2),
+   ("core/src/date.rs", "sub", 2),
+   ("core/src/num/biguint.rs", "divmod", 1),
+   ("core/src/num/biguint.rs", "factorial", 1),
+   ("core/src/num/biguint.rs", "fibonacci", 1),
+   ("core/src/num/biguint.rs", "format", 1),
+   ("core/src/num/biguint.rs", "lshift", 1),
+   ("core/src/num/biguint.rs", "mul_internal", 1),
+   ("core/src/num/biguint.rs", "pow_internal", 1),
+   ("core/src/num/biguint.rs", "root_n", 1),
+   ("core/src/num/biguint.rs", "rshift", 1),
+   ("core/src/num/biguint.rs", "rshift_n", 1),
+   ("core/src/num/dist.rs", "bop", 3),
+   ("core/src/num/dist.rs", "new_die", 2),
+   ("core/src/num/unit/unit_exponent.rs", "add_to_hashmap", 1)]
+
+/-- functions with loops that do not poll, the number of such loops, and why the time between polls stays bounded anyway -/
+def reviewedUnpolled : List (String × String × Nat × String) :=
+  [("core/src/ast.rs", "to_roman", 5, "bounded: the argument is range-checked to 1..=10^9 before the loops, at most a few dozen iterations"),
+   ("core/src/date.rs", "diff_months", 2, "bounded loop of at most 7 / 12 iterations (the long loops of this function poll)"),
+   ("core/src/date.rs", "sub", 1, "bounded loop of at most 7 / 12 iterations (the long loops of this function poll)"),
+   ("core/src/date.rs", "today", 2, "calendar stepping from 1970 to the current date: bounded by the host clock, a few hundred iterations"),
+   ("core/src/date/parser.rs", "parse_num", 1, "linear in the input text: one token / character per iteration, no arithmetic on values"),
+   ("core/src/eval.rs", "evaluate_to_value", 2, "linear in the input text: one token / character per iteration, no arithmetic on values"),
+   ("core/src/eval.rs", "parse_attrs", 1, "linear in the input text: one token / character per iteration, no arithmetic on values"),
+   ("core/src/inline_substitutions.rs", "to_json", 1, "linear in the text being produced"),
+   ("core/src/json.rs", "escape_string", 2, "linear in the text being produced"),
+   ("core/src/lexer.rs", "parse_date", 2, "linear in the input text: one token / character per iteration, no arithmetic on values"),
+   ("core/src/lexer.rs", "parse_ident", 1, "linear in the input text: one token / character per iteration, no arithmetic on values"),
+   ("core/src/lexer.rs", "parse_power_number", 1, "linear in the input text: one token / character per iteration, no arithmetic on values"),
+   ("core/src/lexer.rs", "parse_quote_unit", 1, "linear in the input text: one token / character per iteration, no arithmetic on values"),
+   ("core/src/lexer.rs", "parse_string_literal", 1, "linear in the input text: one token / character per iteration, no arithmetic on values"),
+   ("core/src/lexer.rs", "parse_unicode_escape", 1, "linear in the input text: one token / character per iteration, no arithmetic on values"),
+   ("core/src/lexer.rs", "skip_whitespace_and_comments", 1, "linear in the input text: one token / character per iteration, no arithmetic on values"),
+   ("core/src/lib.rs", "deserialize_variables_internal", 1, "linear in the saved image: one element per iteration"),
+   ("core/src/lib.rs", "evaluate_with_interrupt_internal", 2, "linear in the number of outcomes / components / variables already held in memory, O(1) per iteration"),
+   ("core/src/lib.rs", "get_completions_for_prefix", 1, "linear in the number of outcomes / components / variables already held in memory, O(1) per iteration"),
+   ("core/src/lib.rs", "serialize_variables_internal", 1, "linear in the saved image: one element per iteration"),
+   ("core/src/num/bigrat.rs", "format_nonrecurring", 1, "linear in the text being produced"),
+   ("core/src/num/biguint.rs", "add_assign_internal", 1, "linear in the number of limbs (or of output digits already computed): O(1) work per iteration"),
+   ("core/src/num/biguint.rs", "as_f64", 1, "linear in the number of limbs (or of output digits already computed): O(1) work per iteration"),
+   ("core/src/num/biguint.rs", "bits", 1, "linear in the number of limbs (or of output digits already computed): O(1) work per iteration"),
+   ("core/src/num/biguint.rs", "bitwise_and", 1, "linear in the number of limbs (or of output digits already computed): O(1) work per iteration"),
+   ("core/src/num/biguint.rs", "bitwise_or", 2, "linear in the number of limbs (or of output digits already computed): O(1) work per iteration"),
+   ("core/src/num/biguint.rs", "bitwise_xor", 2, "linear in the number of limbs (or of output digits already computed): O(1) work per iteration"),
+   ("core/src/num/biguint.rs", "cmp", 1, "linear in the number of limbs (or of output digits already computed): O(1) work per iteration"),
+   ("core/src/num/biguint.rs", "deserialize", 1, "linear in the saved image: one element per iteration"),
+   ("core/src/num/biguint.rs", "fmt", 2, "linear in the number of limbs (or of output digits already computed): O(1) work per iteration"),
+   ("core/src/num/biguint.rs", "format", 3, "linear in the number of limbs (or of output digits already computed): O(1) work per iteration"),
+   ("core/src/num/biguint.rs", "hash", 1, "linear in the number of limbs (or of output digits already computed): O(1) work per iteration"),
+   ("core/src/num/biguint.rs", "is_zero", 1, "linear in the number of limbs (or of output digits already computed): O(1) work per iteration"),
+   ("core/src/num/biguint.rs", "serialize", 1, "linear in the saved image: one element per iteration"),
+   ("core/src/num/biguint.rs", "set", 1, "linear in the number of limbs (or of output digits already computed): O(1) work per iteration"),
+   ("core/src/num/biguint.rs", "sub", 1, "linear in the number of limbs (or of output digits already computed): O(1) work per iteration"),
+   ("core/src/num/biguint.rs", "to_words", 2, "linear in the number of limbs (or of output digits already computed): O(1) work per iteration"),
+   ("core/src/num/continued_fraction.rs", "as_f64", 1, "bounded by MAX_ITERATIONS / the precision of an f64"),
+   ("core/src/num/continued_fraction.rs", "fmt", 1, "linear in the text being produced"),
+   ("core/src/num/continued_fraction.rs", "from_f64", 1, "bounded by MAX_ITERATIONS / the precision of an f64"),
+   ("core/src/num/continued_fraction.rs", "next", 2, "bounded by MAX_ITERATIONS / the precision of an f64"),
+   ("core/src/num/dist.rs", "deserialize", 1, "linear in the saved image: one element per iteration"),
+   ("core/src/num/dist.rs", "format", 1, "linear in the text being produced"),
+   ("core/src/num/dist.rs", "neg", 1, "linear in the number of outcomes / components / variables already held in memory, O(1) per iteration"),
+   ("core/src/num/dist.rs", "serialize", 1, "linear in the saved image: one element per iteration"),
+   ("core/src/num/unit.rs", "deserialize", 1, "linear in the saved image: one element per iteration"),
+   ("core/src/num/unit.rs", "div", 1, "linear in the number of outcomes / components / variables already held in memory, O(1) per iteration"),
+   ("core/src/num/unit.rs", "fmt", 1, "linear in the text being produced"),
+   ("core/src/num/unit.rs", "format", 2, "linear in the text being produced"),
+   ("core/src/num/unit.rs", "serialize", 1, "linear in the saved image: one element per iteration"),
+   ("core/src/num/unit/named_unit.rs", "deserialize", 1, "linear in the saved image: one element per iteration"),
+   ("core/src/num/unit/named_unit.rs", "fmt", 1, "linear in the text being produced"),
+   ("core/src/num/unit/named_unit.rs", "serialize", 1, "linear in the saved image: one element per iteration"),
+   ("core/src/parser.rs", "fmt", 2, "linear in the input text: one token / character per iteration, no arithmetic on values"),
+   ("core/src/parser.rs", "parse_additive", 1, "linear in the input text: one token / character per iteration, no arithmetic on values"),
+   ("core/src/parser.rs", "parse_bitshifts", 1, "linear in the input text: one token / character per iteration, no arithmetic on values"),
+   ("core/src/parser.rs", "parse_bitwise_and", 1, "linear in the input text: one token / character per iteration, no arithmetic on values"),
+   ("core/src/parser.rs", "parse_bitwise_or", 1, "linear in the input text: one token / character per iteration, no arithmetic on values"),
+   ("core/src/parser.rs", "parse_bitwise_xor", 1, "linear in the input text: one token / character per iteration, no arithmetic on values"),
+   ("core/src/parser.rs", "parse_combination", 1, "linear in the input text: one token / character per iteration, no arithmetic on values"),
+   ("core/src/parser.rs", "parse_factorial", 1, "linear in the input text: one token / character per iteration, no arithmetic on values"),
+   ("core/src/parser.rs", "parse_multiplicative", 1, "linear in the input text: one token / character per iteration, no arithmetic on values"),
+   ("core/src/parser.rs", "parse_permutation", 1, "linear in the input text: one token / character per iteration, no arithmetic on values"),
+   ("core/src/parser.rs", "parse_statements", 2, "linear in the input text: one token / character per iteration, no arithmetic on values"),
+   ("core/src/serialize.rs", "deserialize", 1, "linear in the saved image: one element per iteration"),
+   ("core/src/units.rs", "get_completions_for_prefix", 2, "iterates over the fixed unit tables / the context's custom units"),
+   ("core/src/units.rs", "query_unit_internal", 1, "iterates over the fixed unit tables / the context's custom units"),
+   ("core/src/units/builtin.rs", "query_unit", 3, "iterates over the fixed unit tables / the context's custom units"),
+   ("core/src/value.rs", "deserialize", 1, "linear in the saved image: one element per iteration"),
+   ("core/src/value.rs", "fmt", 1, "linear in the text being produced"),
+   ("core/src/value.rs", "format", 1, "linear in the text being produced"),
+   ("core/src/value.rs", "format_to_plain_string", 1, "linear in the text being produced"),
+   ("core/src/value.rs", "get_object_member", 1, "linear in the number of outcomes / components / variables already held in memory, O(1) per iteration"),
+   ("core/src/value.rs", "serialize", 1, "linear in the saved image: one element per iteration")]
+
+/-- every reviewed polling loop is still there -/
+theorem polls_kept : reviewedPolled.all (fun r => Fend.Gen.pollLoops.any (fun s => s.1 == r.1 && s.2.1 == r.2.1 && decide (r.2.2 ≤ s.2.2))) = true := by
+  decide +kernel
+
+/-- no function has more unpolled loops than reviewed -/
+theorem unpolled_reviewed : Fend.Gen.unpolledLoops.all (fun s => reviewedUnpolled.any (fun r => r.1 == s.1 && r.2.1 == s.2.1 && decide (s.2.2 ≤ r.2.2.1))) = true := by
+  decide +kernel
 
 end Fend.C07
